@@ -96,6 +96,8 @@ class Target:
             cc = ["g++", "-O2"] + common
         elif self.mode == "o1":
             cc = ["g++", "-O1"] + common
+        elif self.mode == "o0":
+            cc = ["g++", "-O0"] + common
         elif self.mode == "rc":
             cc = ["g++", "-O1"] + common
         elif self.mode == "asan":
@@ -107,7 +109,7 @@ class Target:
         else:
             raise ValueError(self.mode)
         libs = list(self.libs)
-        if self.mode == "rc" or "rapidcheck" in self.libs:
+        if self.mode in ("rc", "o0") or "rapidcheck" in self.libs:
             libs = [l for l in libs if l != "rapidcheck"] + ["-lrapidcheck"]
         return cc + list(self.extra) + inc + defs + [self.src, "-o", out] + libs + ["-lpthread"]
 
@@ -188,7 +190,7 @@ def run_one(job):
            "--out", out] + run.args
     if case is not None:
         cmd += ["--case", case]
-    if run.target.mode == "rc":
+    if run.target.mode in ("rc", "o0"):
         env["RC_PARAMS"] = env.get("RC_PARAMS", "seed=%d" % (seed * 1000003 + shard * 7919 + 1))
     try:
         r = sh(cmd, env=env, timeout=run.timeout, cwd=workdir)
@@ -297,7 +299,7 @@ def check_property(pid, tier, seed, replay=None, verbose=True):
     replay_case = None
     if replay:
         replay_case = json.load(open(replay))
-    plan = spec["plan"](tier, seed, workdir, replay_case)  # -> list[Run]
+    plan = spec["plan"](tier, seed, workdir, replay_case.get("case", replay_case) if replay_case else None)  # -> list[Run]
     targets = []
     for r in plan:
         if r.target not in targets:
